@@ -20,13 +20,13 @@ type c17Case struct {
 	Slot  string   `json:"slot"`  // missing | equal | different
 }
 
-var c17Atoms = []string{"ok-any", "ok-type", "ok-custom", "miss-any", "miss-type", "miss-custom", "bad-type", "bad-custom", "bad-type2", "bad-syntax"}
+var c17Atoms = []string{"ok-any", "ok-type", "ok-custom", "miss-any", "miss-type", "miss-custom", "bad-type", "bad-custom", "bad-type2", "bad-syntax", "bad-type-null"}
 
 const (
-	c17JSONDoc  = `{"a":1,"b":"x","c":{"d":true},"e":2}`
-	c17JSONDoc2 = `{"a":5,"b":"y","c":{"d":false},"e":3}`
-	c17YAMLDoc  = "a: 1\nb: x\nc:\n  d: true\ne: 2\n"
-	c17YAMLDoc2 = "a: 5\nb: y\nc:\n  d: false\ne: 3\n"
+	c17JSONDoc  = `{"a":1,"b":"x","c":{"d":true},"e":2,"n":null}`
+	c17JSONDoc2 = `{"a":5,"b":"y","c":{"d":false},"e":3,"n":null}`
+	c17YAMLDoc  = "a: 1\nb: x\nc:\n  d: true\ne: 2\nn: null\n"
+	c17YAMLDoc2 = "a: 5\nb: y\nc:\n  d: false\ne: 3\nn: null\n"
 )
 
 type c17Built struct {
@@ -106,6 +106,11 @@ func c17Build(api string, atoms []string, eomp bool, dropMissing bool) c17Built 
 			m := match.Type[float64](p("c.d"))
 			b.jm, b.ym = append(b.jm, m), append(b.ym, m)
 			b.fails = append(b.fails, `Type("`+p("c.d")+`")`)
+		case "bad-type-null":
+			// the path EXISTS and holds an explicit null: a wrong type, not a missing path, whatever ErrOnMissingPath says
+			m := match.Type[string](p("n")).ErrOnMissingPath(eomp)
+			b.jm, b.ym = append(b.jm, m), append(b.ym, m)
+			b.fails = append(b.fails, `Type("`+p("n")+`")`)
 		case "bad-custom":
 			m := match.Custom(p("b"), func(v any) (any, error) { return nil, errors.New("custom says no") })
 			b.jm, b.ym = append(b.jm, m), append(b.ym, m)
